@@ -22,6 +22,7 @@ type rapidSource struct {
 	rt    *rapid.T
 	left  int
 	style int
+	burst int // hands still to be played in a row with nothing else happening
 }
 
 func (s *rapidSource) seat(r *Run) int {
@@ -36,11 +37,22 @@ func (s *rapidSource) seat(r *Run) int {
 }
 
 func (s *rapidSource) Next(r *Run) (SOp, bool) {
+	if s.burst > 0 {
+		s.burst--
+		return SOp{K: "next"}, true
+	}
 	if s.left <= 0 {
 		return SOp{}, false
 	}
 	s.left--
 	rt := s.rt
+	// a quiet stretch: hand after hand with nobody coming or going (the button
+	// goes round the table several times)
+	if rapid.IntRange(0, 79).Draw(rt, "quietStretch") == 57 {
+		s.burst = rapid.IntRange(4, 3*r.Max+6).Draw(rt, "hands")
+		r.Facts["quiet-stretch"] = true
+		return SOp{K: "next"}, true
+	}
 	// weights: joins and sit-ins dominate early so that tables fill up
 	k := rapid.IntRange(0, 19).Draw(rt, "op")
 	switch {
